@@ -6,8 +6,10 @@ CONSTANTS N = 4
  Siblings = FALSE
  MinHidden = 0
  Focus = "all"
+ Shape = "any"
+ Flaws = {}
  SliceK = 1
  SliceI = 0
 SPECIFICATION SpecQ
-INVARIANTS UpperBound UnlimitedExact NoHiddenExactWindow Monotone SomePathOK SomePathMultiOK EmitQ
+INVARIANTS UpperBound UnlimitedExact AllInWindow NoHiddenExactWindow Monotone SomePathOK SomePathMultiOK EmitQ
 CHECK_DEADLOCK FALSE
